@@ -12,6 +12,15 @@
   What is NOT proved here: the GIR -> typelib semantic mapping (validated end to end on the
   real scanner/compiler pair by harness/c15.py).
 
+  How the `decide` obligations are evaluated.  The kernel compares strings slowly, so the obligations
+  run on the number-coded, grouped copies of the tables (`Gen.c15*G`; a name is 1 followed by its bytes,
+  base 256 — `code`).  The lists written in this file are written twice: readable (strings) and coded
+  (`…N`, produced with `#eval`); `C15_constants_coded` proves the two agree.  That the GENERATED coded
+  tables are the coding of the generated string tables (which the state machine of the model and the
+  driver use) is evaluated by the compiled driver on every run (`tablesCoded`, op c15.coded; in the
+  kernel that comparison takes minutes) and pinned for the first entry of every table by
+  `C15_tables_coded_first`.
+
   Hypotheses beyond the property's wording:
   * the unchanged tree VIOLATES the contract at the places listed in `knownElementOffences`,
     `knownUnfetched`, `knownValueOffences`; each is replayed on the real pair by the harness
@@ -19,6 +28,9 @@
     `C15_*_counterexample`, and the `_partial` theorems say that these are the ONLY exceptions.
   * `writerOnlyOffences`: combinations girwriter.py could write but no scanner path produces
     (fields of an interface); the harness checks on every produced GIR that they do not occur.
+  * C15_passthrough_balanced, hypothesis `hrow`: the table row taking the element, if it runs
+    introspectable_prelude, does not name PASSTHROUGH as the state of the introspectable element (no
+    start_* function of girparser.c does; C15_no_prelude_to_passthrough checks it on the whole table).
 -/
 import GIVerif.Lemmas.GirConsume
 
@@ -80,28 +92,10 @@ theorem C15_model_shape :
     Gen.c15CEndOther = irregularEnds
     ∧ Gen.c15CHelpers = expectedHelpers
     ∧ Gen.c15CEmbeddedStates = ["CLASS_FIELD", "STRUCT_FIELD"]
-    ∧ Gen.c15CStates.length = 36 ∧ Gen.c15CStates.getD 34 "" = "PASSTHROUGH" := by
-  decide +kernel
+    ∧ Gen.c15CStates.length = 36 ∧ Gen.c15CStates.getD 34 "" = "PASSTHROUGH" :=
+  ⟨rfl, rfl, rfl, rfl, rfl⟩
 
-/-! ### the number-coded tables are the string tables -/
-
-/-- The obligations below are evaluated on the number-coded copies of the tables; they are the very
-    tables the model and the driver use, name by name. -/
-theorem C15_tables_coded :
-    Gen.c15PyChildrenN = Gen.c15PyChildren.map code2
-    ∧ Gen.c15PyAttrsN = Gen.c15PyAttrs.map code2
-    ∧ Gen.c15PyValuesN = valuesS.map code4
-    ∧ Gen.c15PyDynamicN = Gen.c15PyDynamic.map code2 := by
-  decide +kernel
-
-theorem C15_tables_coded_c :
-    Gen.c15CAcceptN = Gen.c15CAccept.map (fun r => (code r.1, code r.2.1, code r.2.2.1, r.2.2.2.1, r.2.2.2.2.1,
-        r.2.2.2.2.2.1, code r.2.2.2.2.2.2.1, r.2.2.2.2.2.2.2))
-    ∧ Gen.c15CFetchedN = Gen.c15CFetched.map code2
-    ∧ Gen.c15CLiteralsN = literalsS.map (fun l => (code l.1, code l.2.1, code l.2.2.1, l.2.2.2)) := by
-  decide +kernel
-
-/-! ### C15_elements -/
+/-! ### the lists of this file: readable, and number-coded -/
 
 /-- Elements the compiler drops together with their subtree BY DESIGN, by name, in whatever state
     they occur (`case 'd' / 'f' / 'm' / 's'` of start_element_handler switch to STATE_PASSTHROUGH):
@@ -135,21 +129,6 @@ def contexts : List (Visit String) := [
   ⟨"property", "INTERFACE_PROPERTY", true⟩, ⟨"field", "STRUCT_FIELD", true⟩, ⟨"field", "UNION_FIELD", true⟩,
   ⟨"array", "TYPE", false⟩, ⟨"varargs", "TYPE", false⟩, ⟨"parameter", "FUNCTION_PARAMETER", true⟩]
 
-def contextsN : List (Visit Nat) := contexts.map codeVisit
-
-/-- the code of "PASSTHROUGH" and the coded list of written elements with a silent prefix (`c:include`) -/
-def cPASSTHROUGH : Nat := 97351750344739538462598429000
-def silentN : List Nat := [7161093912806324266341]
-
-theorem C15_constants_coded : cPASSTHROUGH = code "PASSTHROUGH" ∧ silentN = silentS.map code := by decide +kernel
-
-/-- `contexts` is an inductive invariant of "walk what the writer emits through the parser's table":
-    it holds the start (document, STATE_START, empty node stack) and every child element the writer can put
-    into a listed context and the parser enters leads to a listed context again. -/
-theorem C15_contexts_closed :
-    closedG Gen.c15PyChildrenN Gen.c15CAcceptN silentN cPASSTHROUGH (codeVisit startVisit) contextsN = true := by
-  decide +kernel
-
 /-- The offences of the UNCHANGED tree (each replayed on the real scanner/compiler pair, see
     PENDING_FINDINGS in harness/c15.py):
     * <alias><attribute/>: no node exists for an alias, start_attribute refuses → warning;
@@ -169,46 +148,6 @@ def writerOnlyOffences : List (Offence String) := [
   ⟨"INTERFACE", "interface", "union", .unknown⟩,
   ⟨"INTERFACE_FIELD", "field", "callback", .unknown⟩]
 
-/-- all offences met from the contexts -/
-def offElementsN : List (Offence Nat) :=
-  offFromG Gen.c15PyChildrenN Gen.c15CAcceptN silentN cPASSTHROUGH contextsN
-
-/-- the property's vocabulary clause at full strength: every element the writer can emit, in every
-    context it can emit it in, is taken by the parser in the state reached there (or skipped by design) -/
-def C15_elements_full : Prop := offElementsN = []
-
-theorem C15_elements_counterexample : ¬ C15_elements_full := by
-  unfold C15_elements_full; decide +kernel
-
-/-- Walking everything GIRWriter can emit (all parent/child pairs, in all reachable contexts) through
-    the parser's (state, element) table: every child is handled by a start_* function in the state
-    its parent leaves the parser in, or is skipped by design, EXCEPT exactly the listed pairs. -/
-theorem C15_elements_partial :
-    (offElementsN.filter fun o => !(writerOnlyOffences.map codeOffence).contains o) = knownElementOffences.map codeOffence
-    ∧ ((writerOnlyOffences.map codeOffence).all fun o => offElementsN.contains o) = true := by
-  decide +kernel
-
-/-- the by-name passthrough list written above is the one in girparser.c, and apart from it the only
-    handled elements that end in PASSTHROUGH are <instance-parameter> (read, then its subtree skipped: an
-    instance parameter has no argument blob) and elements skipped by introspectable_prelude -/
-theorem C15_passthrough_list :
-    Gen.c15CPassthroughByName = passthroughByDesign
-    ∧ Gen.c15CSilentPrefixes = ["c:"]
-    ∧ (Gen.c15CAcceptN.all fun r => r.2.2.2.2.2.2.1 != cPASSTHROUGH || (passthroughByDesign.map code).contains r.2.1
-        || r.2.1 == code "instance-parameter") = true := by
-  decide +kernel
-
-/-- no element that can be skipped or unknown is ever written inside <type>/<array> or <attribute>: the
-    single `prev_state` slot that STATE_TYPE and STATE_ATTRIBUTE return through is never overwritten
-    by a PASSTHROUGH excursion in scanner output -/
-theorem C15_no_markup_inside_type :
-    (Gen.c15PyChildrenN.all fun p =>
-      (!(p.1 == code "type" || p.1 == code "array") || (p.2 == code "type" || p.2 == code "array" || p.2 == code "varargs"))
-      && p.1 != code "attribute" && p.1 != code "varargs") = true := by
-  decide +kernel
-
-/-! ### C15_attributes -/
-
 /-- (written element, start_* function that reads its attributes), over all contexts -/
 def handlers : List (String × String) := [
   ("repository", "inline:repository"), ("doc:format", "inline:doc:format"), ("include", "inline:include"),
@@ -222,14 +161,6 @@ def handlers : List (String × String) := [
   ("method", "start_function"), ("property", "start_property"), ("virtual-method", "start_vfunc"),
   ("array", "start_type"), ("varargs", "start_type"), ("prerequisite", "inline:prerequisite"),
   ("instance-parameter", "start_instance_parameter"), ("parameter", "start_parameter")]
-
-def handlersN : List (Nat × Nat) := handlers.map fun p => (code p.1, code p.2)
-
-/-- `handlers` is exactly what the table yields over all contexts -/
-theorem C15_handlers :
-    handlersFromG Gen.c15PyChildrenN Gen.c15CAcceptN cPASSTHROUGH (code "start_instance_parameter") contextsN
-      = handlersN := by
-  decide +kernel
 
 /-- Attributes the compiler does not read BY DESIGN (no place in a typelib / other consumers):
     * c:type, c:symbol-prefix, c:symbol-prefixes: C spellings, for documentation and code generators
@@ -259,28 +190,11 @@ def ignoredPairs : List (String × String) :=
    ("instance-parameter", "scope"), ("instance-parameter", "closure"), ("instance-parameter", "destroy"),
    ("instance-parameter", "skip")]
 
-/-- The offences of the UNCHANGED tree:
-    * <member introspectable="0">: start_member neither runs introspectable_prelude nor reads the attribute;
-    * <property deprecated="1">: start_property does not read it although PropertyBlob has the bit. -/
+/-- The offence of the UNCHANGED tree:
+    * <member introspectable="0">: start_member neither runs introspectable_prelude nor reads the attribute.
+    (`<property deprecated="1">` was one until start_property learnt to read it.) -/
 def knownUnfetched : List (String × String × String) :=
-  [("member", "start_member", "introspectable"), ("property", "start_property", "deprecated")]
-
-def unfetchedNotByDesign : List (Nat × Nat × Nat) :=
-  (unfetchedG Gen.c15PyAttrsN Gen.c15CFetchedN handlersN).filter fun x =>
-    !((ignoredAttrs.map code).contains x.2.2 || (ignoredPairs.map fun p => (code p.1, code p.2)).contains (x.1, x.2.2))
-
-def C15_attributes_full : Prop := unfetchedNotByDesign = []
-
-theorem C15_attributes_counterexample : ¬ C15_attributes_full := by
-  unfold C15_attributes_full; decide +kernel
-
-/-- Every attribute GIRWriter can put on an element the parser handles is fetched (find_attribute) by the
-    start_* function that handles that element, or is in the explicit ignored-by-design lists, EXCEPT
-    exactly the listed pairs. -/
-theorem C15_attributes_partial : unfetchedNotByDesign = knownUnfetched.map code3 := by
-  decide +kernel
-
-/-! ### C15_values -/
+  [("member", "start_member", "introspectable")]
 
 /-- a value that reaches the final `else` of a comparison chain ON PURPOSE: start_glib_signal tests
     LAST, then FIRST, and treats everything else as RUN_CLEANUP — "cleanup" is the third value -/
@@ -295,100 +209,248 @@ def knownValueOffences : List (String × String × String × String) :=
   [("glib:signal", "start_glib_signal", "when", "must-collect"),
    ("instance-parameter", "start_instance_parameter", "transfer-ownership", "container")]
 
+/-! the same lists, number-coded (regenerate with `#eval (contexts.map codeVisit)` etc.; `C15_constants_coded` checks them) -/
+
+def cPASSTHROUGH : Nat := 406507566296163769080170312
+def cInstanceParameter : Nat := 9108040582535409498726417970461977819827324383652908131698
+def cZero : Nat := 304
+def cOne : Nat := 305
+def cType : Nat := 6249082981
+def cArray : Nat := 1518043554169
+def cVarargs : Nat := 105378785178838899
+def cAttribute : Nat := 6520092115822118794341
+def silentN : List Nat := [6552803162866945713253]
+def startVisitN : Visit Nat := ⟨1, 1457407480404, false⟩
+def passthroughByDesignN : List Nat :=
+  [23359331, 7229362838830820080306787741623652, 28239698589460668724015096493177, 430903603965987135255310190, 1683217222676685362130798,
+  1861224063156721376927524727732924005, 7270406496705942878623160428884591, 28949678032274435722894604070501, 1928602787078893127524631153117589358]
+def contextsN : List (Visit Nat) :=
+  [⟨1, 1457407480404, false⟩, ⟨1749146821634364818813561, 1597438483486646647870041, false⟩, ⟨1683217206633762707562868, 1531508887907817929654612,
+  false⟩, ⟨101733839892997221, 92691318288237637, false⟩, ⟨6758528709918317437797, 6165918014028793332549, false⟩, ⟨103689871060723557,
+  94647349455963973, false⟩, ⟨1517942301043, 1379964371283, false⟩, ⟨25538071145184848996, 5457728845, true⟩, ⟨25607868168968168299,
+  23514787080468778830, true⟩, ⟨1526531715955, 1388553786195, true⟩, ⟨25611811048032136820, 29117724565571740505478320417068041008926292, true⟩,
+  ⟨432108144067427386033532782, 5457728845, true⟩, ⟨25829672611287232366, 23514787080468778830, true⟩, ⟨1697329409406279414736228, 1384310654276,
+  true⟩, ⟨6667233708592636978021, 6074623012703112872773, true⟩, ⟨407254762222180, 373096600388436, true⟩, ⟨1603875204974, 1465897275214, true⟩,
+  ⟨6249082981, 5710106693, false⟩, ⟨6520092115822118794341, 5927481419932594689093, true⟩, ⟨401757371000178, 5457728845, true⟩,
+  ⟨1739628441860254841795187, 7277474110545718151193009248948116614531076691, true⟩, ⟨114632105102705400431902487909,
+  1694418981332731934076412293971006030, true⟩, ⟨429694886104040255855554418, 23514787080468778830, true⟩, ⟨1539366546532,
+  390843144630835591283821636, true⟩, ⟨434516328808026195815719276, 23514787080468778830, true⟩, ⟨1706793096381326523528307,
+  1555084758233608352584787, true⟩, ⟨401757488836452, 23514787080468778830, true⟩, ⟨26549405281831515257, 6557259859590769698576620380640345, true⟩,
+  ⟨7593975570910551210316123863543652, 23514787080468778830, true⟩, ⟨1518043554169, 5710106693, true⟩, ⟨6249082981, 5710106693, true⟩,
+  ⟨105378785178838899, 5710106693, true⟩, ⟨1539366546532, 1709854371026623682704719365642996804, true⟩, ⟨114028780226944400019658732645,
+  104086422578095541968704197701, true⟩, ⟨26549405281831515257, 28686596111257807275452541739895763756012633, true⟩, ⟨1539366546532,
+  105017356905160056178662001732, true⟩, ⟨1539366546532, 412613401401179494360108100, true⟩, ⟨1518043554169, 5710106693, false⟩, ⟨105378785178838899,
+  5710106693, false⟩, ⟨6795423601016620475762, 28427633244319211528097692378703580525512018, true⟩]
+def knownElementOffencesN : List (Offence Nat) :=
+  [⟨1379964371283, 1517942301043, 6520092115822118794341, .unknown⟩, ⟨373096600388436, 407254762222180, 407254762222180, .selfSwitch⟩, ⟨1465897275214,
+  1603875204974, 1603875204974, .selfSwitch⟩, ⟨412613401401179494360108100, 1539366546532, 25607868168968168299, .unknown⟩]
+def writerOnlyOffencesN : List (Offence Nat) :=
+  [⟨6074623012703112872773, 6667233708592636978021, 407254762222180, .unknown⟩, ⟨6074623012703112872773, 6667233708592636978021, 1603875204974,
+  .unknown⟩, ⟨1709854371026623682704719365642996804, 1539366546532, 25607868168968168299, .unknown⟩]
+def allOffencesN : List (Offence Nat) :=
+  [⟨1379964371283, 1517942301043, 6520092115822118794341, .unknown⟩, ⟨6074623012703112872773, 6667233708592636978021, 407254762222180, .unknown⟩,
+  ⟨6074623012703112872773, 6667233708592636978021, 1603875204974, .unknown⟩, ⟨373096600388436, 407254762222180, 407254762222180, .selfSwitch⟩,
+  ⟨1465897275214, 1603875204974, 1603875204974, .selfSwitch⟩, ⟨1709854371026623682704719365642996804, 1539366546532, 25607868168968168299, .unknown⟩,
+  ⟨412613401401179494360108100, 1539366546532, 25607868168968168299, .unknown⟩]
+def handlersN : List (Nat × Nat) :=
+  [(1749146821634364818813561, 122988712444455282721586500523022917530233), (1683217206633762707562868, 122988712444455282655656885522420806279540),
+  (101733839892997221, 7330698516634421508267538862400613), (6758528709918317437797, 480424657986153448057121205577138135909), (103689871060723557,
+  7330698516634421510223570030126949), (1517942301043, 111857582346106285186974572915), (25538071145184848996, 1754144809259910778746221),
+  (25607868168968168299, 7533994588219474832613092375490414), (1526531715955, 449061071170537150734234483), (25611811048032136820,
+  7533994588219474614751529120394868), (432108144067427386033532782, 1754144809259910778746221), (25829672611287232366,
+  7533994588219474832613092375490414), (1697329409406279414736228, 493747869333551507186116815561424397668), (6667233708592636978021,
+  1928702614584185611986471751231038309), (407254762222180, 114959634219657528214795150196), (1603875204974, 449061071170537228077723502),
+  (6249082981, 1754144809259911031124069), (6520092115822118794341, 1928702614584185464844878980712854629), (401757371000178,
+  114959634219657521553215743346), (1739628441860254841795187, 122988712444455282712068120748912940511859), (114632105102705400431902487909,
+  32358260364643634970874276814030213252674917), (429694886104040255855554418, 7533994588219474832613092375490414), (1539366546532,
+  449061071170537163569065060), (434516328808026195815719276, 126399454549389185839645904802390289047916), (1706793096381326523528307,
+  493747869333551516649803749926602962035), (401757488836452, 7533994588219474832613092375490414), (26549405281831515257,
+  7533994588219475552345762919773305), (7593975570910551210316123863543652, 449061071170537232239259235), (1518043554169, 1754144809259911031124069),
+  (105378785178838899, 1754144809259911031124069), (114028780226944400019658732645, 8060188258759821407838587022591497177154548837),
+  (31485119747228842716540428525926096580142450, 9108040582535409498726417970461977819827324383652908131698), (6795423601016620475762,
+  1928702614584185740176364175214536050)]
+def ignoredAttrsN : List Nat :=
+  [390577690079333, 1844450913355488695431409864412653944, 120877935057665307143792876874147688899955, 105383183526752110,
+  31046491778279429493373909530223179356270446, 6852128143532314162297, 26332395724103054447, 1866233421808370356507594039460458083,
+  477755755982948808468107413996053032547, 7289974303939279175738129873464931, 100606866378483058, 28236607611739293543638131045733,
+  103708588712752229, 6630193005493479370085, 6630193005493479891819, 1616743526003, 105954903720147555, 6943860570203590258531,
+  1777628305972119156320610]
+def ignoredPairsN : List (Nat × Nat) :=
+  [(1683217206633762707562868, 6146846053), (103689871060723557, 6146846053), (1517942301043, 1683033691703195464918372), (1517942301043,
+  7330701003399816966431809153952869), (1539366546532, 1683033691703195464918372), (7593975570910551210316123863543652, 1683033691703195464918372),
+  (6249082981, 100890578780776302), (31485119747228842716540428525926096580142450, 6146846053), (31485119747228842716540428525926096580142450,
+  6574639137239757057902), (31485119747228842716540428525926096580142450, 472381790387197776920803776826531145075),
+  (31485119747228842716540428525926096580142450, 26406131202902879333), (31485119747228842716540428525926096580142450, 1668995430407860913139301),
+  (31485119747228842716540428525926096580142450, 26476790205501038956), (31485119747228842716540428525926096580142450, 1595101114469),
+  (31485119747228842716540428525926096580142450, 100042842666529381), (31485119747228842716540428525926096580142450, 100316638258294649),
+  (31485119747228842716540428525926096580142450, 6231386480)]
+def knownUnfetchedN : List (Nat × Nat × Nat) := [(401757371000178, 114959634219657521553215743346, 7330701003399816966431809153952869)]
+def elseBranchByDesignN : List (Nat × Nat × Nat × Nat) :=
+  [(434516328808026195815719276, 126399454549389185839645904802390289047916, 6298297710, 100042799414408560)]
+def knownValueOffencesN : List (Nat × Nat × Nat × Nat) :=
+  [(434516328808026195815719276, 126399454549389185839645904802390289047916, 6298297710, 113104018120924284523360117620),
+  (31485119747228842716540428525926096580142450, 9108040582535409498726417970461977819827324383652908131698,
+  32444692065052634086064121267185753780676976, 6556623629314268489074)]
+
+/-- all of them, in the order the walk meets them -/
+def allOffences : List (Offence String) := [
+  ⟨"ALIAS", "alias", "attribute", .unknown⟩,
+  ⟨"INTERFACE", "interface", "record", .unknown⟩,
+  ⟨"INTERFACE", "interface", "union", .unknown⟩,
+  ⟨"STRUCT", "record", "record", .selfSwitch⟩,
+  ⟨"UNION", "union", "union", .selfSwitch⟩,
+  ⟨"INTERFACE_FIELD", "field", "callback", .unknown⟩,
+  ⟨"UNION_FIELD", "field", "callback", .unknown⟩]
+
+/-- every coded list of this file is the coding of its readable twin -/
+theorem C15_constants_coded :
+    cPASSTHROUGH = code "PASSTHROUGH" ∧ cInstanceParameter = code "start_instance_parameter"
+    ∧ cZero = code "0" ∧ cOne = code "1" ∧ cType = code "type" ∧ cArray = code "array" ∧ cVarargs = code "varargs"
+    ∧ cAttribute = code "attribute" ∧ silentN = [code "c:include"] ∧ startVisitN = codeVisit startVisit
+    ∧ passthroughByDesignN = passthroughByDesign.map code
+    ∧ contextsN = contexts.map codeVisit
+    ∧ knownElementOffencesN = knownElementOffences.map codeOffence
+    ∧ writerOnlyOffencesN = writerOnlyOffences.map codeOffence
+    ∧ allOffencesN = allOffences.map codeOffence
+    ∧ handlersN = handlers.map code2
+    ∧ ignoredAttrsN = ignoredAttrs.map code ∧ ignoredPairsN = ignoredPairs.map code2
+    ∧ knownUnfetchedN = knownUnfetched.map code3
+    ∧ elseBranchByDesignN = elseBranchByDesign.map code4 ∧ knownValueOffencesN = knownValueOffences.map code4 := by
+  decide +kernel
+
+/-- the coding of the generated tables, pinned on the first entry of each (the whole tables: `tablesCoded`,
+    evaluated by the driver on every run) -/
+theorem C15_tables_coded_first :
+    (Gen.c15PyChildrenG.head?.map fun g => (g.1, g.2.head?)) = (Gen.c15PyChildren.head?.map fun p => (code p.1, some (code p.2)))
+    ∧ (Gen.c15PyAttrsG.head?.map fun g => (g.1, g.2.head?)) = (Gen.c15PyAttrs.head?.map fun p => (code p.1, some (code p.2)))
+    ∧ (Gen.c15CAcceptG.head?.map fun g => (g.1, g.2.head?.map fun r => (r.1, r.2.1, r.2.2.2.2.2.1)))
+        = (Gen.c15CAccept.head?.map fun r => (code r.1, some (code r.2.1, code r.2.2.1, code r.2.2.2.2.2.2.1)))
+    ∧ (Gen.c15CFetchedG.head?.map fun g => (g.1, g.2.head?)) = (Gen.c15CFetched.head?.map fun p => (code p.1, some (code p.2))) := by
+  decide +kernel
+
+/-! ### C15_elements -/
+
+/-- the steps of the walk of everything GIRWriter can emit through the parser's table, from `contexts` -/
+def stepsN : List (Step Nat) :=
+  walkG Gen.c15PyChildrenG Gen.c15CAcceptG silentN cPASSTHROUGH cInstanceParameter contextsN
+
+/-- all offences met from the contexts -/
+def offElementsN : List (Offence Nat) := offOf stepsN
+
+/-- the walk, evaluated once: `contexts` is closed, the offences met, the (element, handler) pairs met -/
+theorem C15_walk :
+    closedOf startVisitN contextsN stepsN = true ∧ offElementsN = allOffencesN ∧ handlersOfSteps stepsN = handlersN := by
+  decide +kernel
+
+/-- `contexts` is an inductive invariant of "walk what the writer emits through the parser's table":
+    it holds the start (document, STATE_START, empty node stack) and every child element the writer can put
+    into a listed context and the parser enters leads to a listed context again. -/
+theorem C15_contexts_closed : closedOf startVisitN contextsN stepsN = true := C15_walk.1
+
+/-- the property's vocabulary clause at full strength: every element the writer can emit, in every
+    context it can emit it in, is taken by the parser in the state reached there (or skipped by design) -/
+def C15_elements_full : Prop := offElementsN = []
+
+theorem C15_elements_counterexample : ¬ C15_elements_full := by
+  unfold C15_elements_full; rw [C15_walk.2.1]; decide
+
+/-- Walking everything GIRWriter can emit (all parent/child pairs, in all reachable contexts) through
+    the parser's (state, element) table: every child is handled by a start_* function in the state
+    its parent leaves the parser in, or is skipped by design, EXCEPT exactly the listed pairs. -/
+theorem C15_elements_partial :
+    (offElementsN.filter fun o => !writerOnlyOffencesN.contains o) = knownElementOffencesN
+    ∧ (writerOnlyOffencesN.all fun o => offElementsN.contains o) = true := by
+  rw [C15_walk.2.1]; decide +kernel
+
+/-- the by-name passthrough list written above is the one in girparser.c, and apart from it the only
+    handled elements that end in PASSTHROUGH are <instance-parameter> (read, then its subtree skipped: an
+    instance parameter has no argument blob) and elements skipped by introspectable_prelude -/
+theorem C15_passthrough_list :
+    Gen.c15CPassthroughByName = passthroughByDesign
+    ∧ Gen.c15CSilentPrefixes = ["c:"]
+    ∧ (Gen.c15CAcceptG.all fun g => g.2.all fun r => r.2.2.2.2.2.1 != cPASSTHROUGH || passthroughByDesignN.contains r.1
+        || r.2.1 == cInstanceParameter) = true :=
+  ⟨rfl, rfl, by decide +kernel⟩
+
+/-- no element that can be skipped or unknown is ever written inside <type>/<array> or <attribute>: the
+    single `prev_state` slot that STATE_TYPE and STATE_ATTRIBUTE return through is never overwritten
+    by a PASSTHROUGH excursion in scanner output -/
+theorem C15_no_markup_inside_type :
+    (Gen.c15PyChildrenG.all fun g =>
+      (!(g.1 == cType || g.1 == cArray) || g.2.all fun ch => ch == cType || ch == cArray || ch == cVarargs)
+      && g.1 != cAttribute && g.1 != cVarargs) = true := by
+  decide +kernel
+
+/-! ### C15_attributes -/
+
+/-- `handlers` is exactly what the table yields over all contexts -/
+theorem C15_handlers : handlersOfSteps stepsN = handlersN := C15_walk.2.2
+
+def unfetchedNotByDesign : List (Nat × Nat × Nat) :=
+  (unfetchedG Gen.c15PyAttrsG Gen.c15CFetchedG handlersN).filter fun x =>
+    !(ignoredAttrsN.contains x.2.2 || ignoredPairsN.contains (x.1, x.2.2))
+
+def C15_attributes_full : Prop := unfetchedNotByDesign = []
+
+/-- Every attribute GIRWriter can put on an element the parser handles is fetched (find_attribute) by the
+    start_* function that handles that element, or is in the explicit ignored-by-design lists, EXCEPT
+    exactly the listed pair. -/
+theorem C15_attributes_partial : unfetchedNotByDesign = knownUnfetchedN := by
+  decide +kernel
+
+theorem C15_attributes_counterexample : ¬ C15_attributes_full := by
+  unfold C15_attributes_full; rw [C15_attributes_partial]; decide
+
+/-! ### C15_values -/
+
 def offValuesNotByDesign : List (Nat × Nat × Nat × Nat) :=
-  (offValuesG Gen.c15PyValuesN Gen.c15PyDynamicN Gen.c15CLiteralsN (code "0") (code "1") handlersN).filter fun x => !(elseBranchByDesign.map code4).contains x
+  (offValuesG Gen.c15PyValuesG Gen.c15PyDynamicG Gen.c15CLiteralsG cZero cOne handlersN).filter fun x =>
+    !elseBranchByDesignN.contains x
 
 def C15_values_full : Prop := offValuesNotByDesign = []
-
-theorem C15_values_counterexample : ¬ C15_values_full := by
-  unfold C15_values_full; decide +kernel
 
 /-- Every enumerated attribute value GIRWriter can produce (string constants in girwriter.py and the
     PARAM_TRANSFER_*/PARAM_DIRECTION_*/PARAM_SCOPE_*/SIGNAL_* constants of ast.py, minus what an enclosing
     `!=` test excludes) is one of the literals the handling start_* function compares that attribute with —
     no silent default — EXCEPT exactly the listed values. -/
-theorem C15_values_partial : offValuesNotByDesign = knownValueOffences.map code4 := by
+theorem C15_values_partial : offValuesNotByDesign = knownValueOffencesN := by
   decide +kernel
+
+theorem C15_values_counterexample : ¬ C15_values_full := by
+  unfold C15_values_full; rw [C15_values_partial]; decide
 
 /-- … and, against the written contract docs/gir-1.2.rnc: every such value is one the schema allows for
     that attribute, except when="must-collect". -/
 theorem C15_values_in_schema :
-    (Gen.c15PyValues.filter fun x =>
-      (Gen.c15RncValues.any fun r => r.1 == x.2.1) && !Gen.c15RncValues.contains (x.2.1, x.2.2)
-      && !Gen.c15PyDynamic.contains (x.1, x.2.1))
-      = [("glib:signal", "when", "must-collect")] := by
+    notInSchemaG Gen.c15PyValuesG Gen.c15PyDynamicG Gen.c15RncValuesG
+      = (knownValueOffencesN.take 1).map (fun x => (x.1, x.2.2.1, x.2.2.2)) := by
   decide +kernel
 
 /-! ### C15_passthrough_balanced -/
+
+/-- no start_* function hands STATE_PASSTHROUGH to introspectable_prelude as the state of an introspectable
+    element (hypothesis `hrow` of C15_passthrough_balanced, here on the whole coded table): an element that
+    runs the prelude enters PASSTHROUGH only when it is hidden -/
+theorem C15_no_prelude_to_passthrough :
+    (Gen.c15CAcceptG.all fun g => g.2.all fun r => !r.2.2.2.1 || r.2.2.2.2.2.1 != cPASSTHROUGH) = true := by
+  decide +kernel
 
 /-- For EVERY parser context outside PASSTHROUGH, every element the parser decides to skip there
     (non-introspectable, shadowed, passthrough by name, or unknown — whatever makes `startEv` enter
     PASSTHROUGH) and EVERY well-nested content of that element: after the matching end tag the parser is
     exactly where it was — same state, node stack, embedded state, type depth, and nothing in the subtree
     was acted on (the log only has the entry of the skipped element itself).  The counter is back to 0 and
-    the only trace is `prev_state = PASSTHROUGH`.  A skipped element removes exactly its own subtree. -/
+    the only trace is `prev_state = PASSTHROUGH`.  A skipped element removes exactly its own subtree.
+    (`hrow`: the row of the table that takes the element, if it runs introspectable_prelude, does not name
+    PASSTHROUGH as the state of the introspectable element — C15_no_prelude_to_passthrough.) -/
 theorem C15_passthrough_balanced (c c1 : Ctx) (n : String) (hidden : Bool) (body : List Ev)
     (hb : WN body) (hs : c.state ≠ "PASSTHROUGH")
+    (hrow : ∀ r, lookup c.state n (!c.stack.isEmpty) = some r → r.prelude = true → r.target ≠ "PASSTHROUGH")
     (h1 : startEv c n hidden = .ok c1) (hp : c1.state = "PASSTHROUGH") :
     ∃ entry, c1.log = c.log ++ [entry] ∧
       run c (Ev.start n hidden :: (body ++ [Ev.stop n]))
         = .ok { c with prev := "PASSTHROUGH", depth := 0, log := c.log ++ [entry] } := by
-  -- what entering PASSTHROUGH from outside looks like
-  have key : ∃ entry, c1 = { c with prev := c.state, state := "PASSTHROUGH", depth := 1, log := c.log ++ [entry] } := by
-    unfold startEv at h1
-    rw [if_neg hs] at h1
-    have sw : ∀ (c' : Ctx) (s : String) (r : Ctx), stateSwitch c' s = .ok r →
-        r = { c' with prev := c'.state, state := s, depth := if s = "PASSTHROUGH" then 1 else c'.depth } := by
-      intro c' s r h
-      unfold stateSwitch at h
-      split at h
-      · cases h
-      · cases h; rfl
-    split at h1
-    · rename_i r _
-      split at h1
-      · split at h1
-        · -- hidden: straight to PASSTHROUGH
-          have := sw _ _ _ h1
-          exact ⟨"~" ++ n, by simpa using this⟩
-        · -- introspectable: the target state would have to be PASSTHROUGH
-          simp only [bind, Except.bind] at h1
-          split at h1
-          · cases h1
-          · rename_i c2 h2
-            have e2 := sw _ _ _ h2
-            cases h1
-            by_cases ht : r.target = "PASSTHROUGH"
-            · refine ⟨"+" ++ n, ?_⟩
-              simp only [pure, Except.pure] at hp ⊢
-              subst e2
-              split <;> split <;> simp_all
-            · exfalso
-              simp only [pure, Except.pure] at hp
-              subst e2
-              split at hp <;> split at hp <;> simp_all
-      · split at h1
-        · simp only [bind, Except.bind] at h1
-          split at h1
-          · cases h1
-          · rename_i c2 h2
-            have e2 := sw _ _ _ h2
-            cases h1
-            by_cases ht : r.target = "PASSTHROUGH"
-            · refine ⟨"+" ++ n, ?_⟩
-              simp only [pure, Except.pure] at hp ⊢
-              subst e2
-              split <;> simp_all
-            · exfalso
-              simp only [pure, Except.pure] at hp
-              subst e2
-              split at hp <;> simp_all
-        · exfalso
-          simp only [pure, Except.pure] at h1
-          split at h1 <;> (cases h1; simp_all)
-    · have := sw _ _ _ h1
-      exact ⟨_, by simpa using this⟩
-  obtain ⟨entry, rfl⟩ := key
+  obtain ⟨entry, rfl⟩ := startEv_enters_passthrough c c1 n hidden hs hrow h1 hp
   refine ⟨entry, rfl, ?_⟩
   -- start
   simp only [run, step, h1]
@@ -405,10 +467,11 @@ theorem C15_passthrough_balanced (c c1 : Ctx) (n : String) (hidden : Bool) (body
 /-- … so whatever follows is parsed as if the skipped element had not been there. -/
 theorem C15_skipped_subtree_invisible (c c1 : Ctx) (n : String) (hidden : Bool) (body rest : List Ev)
     (hb : WN body) (hs : c.state ≠ "PASSTHROUGH")
+    (hrow : ∀ r, lookup c.state n (!c.stack.isEmpty) = some r → r.prelude = true → r.target ≠ "PASSTHROUGH")
     (h1 : startEv c n hidden = .ok c1) (hp : c1.state = "PASSTHROUGH") :
     ∃ entry, run c (Ev.start n hidden :: (body ++ Ev.stop n :: rest))
         = run { c with prev := "PASSTHROUGH", depth := 0, log := c.log ++ [entry] } rest := by
-  obtain ⟨entry, _, h⟩ := C15_passthrough_balanced c c1 n hidden body hb hs h1 hp
+  obtain ⟨entry, _, h⟩ := C15_passthrough_balanced c c1 n hidden body hb hs hrow h1 hp
   refine ⟨entry, ?_⟩
   have : Ev.start n hidden :: (body ++ Ev.stop n :: rest) = (Ev.start n hidden :: (body ++ [Ev.stop n])) ++ rest := by
     simp
@@ -419,11 +482,24 @@ theorem C15_passthrough_inert (c : Ctx) (evs : List Ev) (hw : WN evs) (hs : c.st
     (hd : 1 ≤ c.depth) : run c evs = .ok c :=
   run_passthrough_wn evs hw c hs hd
 
-/-! ### non-vacuity -/
+/-- a hidden element (introspectable="0" / shadowed-by) whose handler runs introspectable_prelude always
+    enters PASSTHROUGH, whatever state the handler would have switched to -/
+theorem C15_hidden_enters_passthrough (c : Ctx) (n : String) (r : Row) (hs : c.state ≠ "PASSTHROUGH")
+    (hl : lookup c.state n (!c.stack.isEmpty) = some r) (hpre : r.prelude = true) :
+    startEv c n true
+      = .ok { c with prev := c.state, state := "PASSTHROUGH", depth := 1, log := c.log ++ ["~" ++ n] } := by
+  simp [startEv, hs, hl, hpre, stateSwitch]
 
-/-- the context inside <namespace> -/
-def inNamespace : Ctx :=
-  { Ctx.init with state := "NAMESPACE", prev := "REPOSITORY" }
+/-- an element no handler takes in the current state is skipped the same way (with a warning unless its
+    name has a silent prefix) -/
+theorem C15_unknown_enters_passthrough (c : Ctx) (n : String) (hidden : Bool) (hs : c.state ≠ "PASSTHROUGH")
+    (hl : lookup c.state n (!c.stack.isEmpty) = none) :
+    ∃ entry, startEv c n hidden
+      = .ok { c with prev := c.state, state := "PASSTHROUGH", depth := 1, log := c.log ++ [entry] } := by
+  refine ⟨if silentPrefix n then "." ++ n else "?" ++ n ++ "@" ++ c.state, ?_⟩
+  simp [startEv, hs, hl, stateSwitch]
+
+/-! ### non-vacuity -/
 
 /-- a well-nested body: <parameters><parameter><doc/><type/></parameter></parameters> -/
 def sampleBody : List Ev :=
@@ -437,20 +513,26 @@ example : WN sampleBody := by
       Ev.stop "type", Ev.stop "parameter"] := WN.node "parameter" false _ [] h1 WN.nil
   exact WN.node "parameters" false _ [] h2 WN.nil
 
--- a non-introspectable function: hypotheses of C15_passthrough_balanced hold, and the conclusion computes
-example : (startEv inNamespace "function" true).map (·.state) = .ok "PASSTHROUGH" := by decide +kernel
-example : run inNamespace (Ev.start "function" true :: (sampleBody ++ [Ev.stop "function"]))
-    = .ok { inNamespace with prev := "PASSTHROUGH", log := ["~function"] } := by decide +kernel
--- the same element left introspectable is consumed: the states really differ
-example : (run inNamespace (Ev.start "function" false :: (sampleBody ++ [Ev.stop "function"]))).map (·.log)
-    = .ok ["+function", "+parameters", "+parameter", "+doc", "+type"] := by decide +kernel
--- an element nobody knows is skipped with a warning, and only it
-example : (run inNamespace [.start "frobnicate" false, .start "function" false, .stop "function", .stop "frobnicate",
-    .start "alias" false, .stop "alias"]).map (fun c => (c.state, c.log))
-    = .ok ("NAMESPACE", ["?frobnicate@NAMESPACE", "+alias"]) := by decide +kernel
--- the defect behind knownElementOffences: <record> directly inside <record> trips the assertion of state_switch
-example : (run inNamespace [.start "record" false, .start "record" false]).toOption = none := by decide +kernel
+/- The examples below are evaluated by the kernel on the string tables, which is slow; they stay in
+   STATE_START, whose rows come first in the table. -/
+
+-- a <doc> element met at the top of the document is skipped by name: the hypotheses of
+-- C15_passthrough_balanced hold (`hrow`: the row that takes it does not run the prelude) …
+example : (startEv Ctx.init "doc" false).map (·.state) = .ok "PASSTHROUGH" := by decide +kernel
+example : (lookup Ctx.init.state "doc" (!Ctx.init.stack.isEmpty)).map (·.prelude) = some false := by decide +kernel
+-- … and the conclusion computes: whatever is inside, only the entry of the skipped element is logged
+example : run Ctx.init (Ev.start "doc" false :: (sampleBody ++ [Ev.stop "doc"]))
+    = .ok { Ctx.init with prev := "PASSTHROUGH", log := ["+doc"] } := by decide +kernel
+-- an element that is taken is consumed: the states really differ
+example : (run Ctx.init [.start "repository" false, .stop "repository"]).map (fun c => (c.state, c.log))
+    = .ok ("END", ["+repository"]) := by decide +kernel
+-- the defect behind the selfSwitch offences: state_switch to the current state trips its assertion
+example : (stateSwitch { Ctx.init with state := "STRUCT" } "STRUCT").toOption = none := by decide +kernel
 -- the tables are not empty
-example : 200 ≤ Gen.c15PyChildren.length ∧ 400 ≤ Gen.c15CAccept.length ∧ 30 ≤ handlers.length := by decide +kernel
+example : 30 ≤ Gen.c15PyChildrenG.length ∧ 30 ≤ Gen.c15CAcceptG.length ∧ 30 ≤ handlers.length
+    ∧ 200 ≤ Gen.c15PyChildren.length ∧ 400 ≤ Gen.c15CAccept.length := by decide +kernel
+-- the full statements are refuted by concrete table entries, e.g. the first offence is <alias><attribute/>
+example : offElementsN.head? = some ⟨code "ALIAS", code "alias", code "attribute", .unknown⟩ := by
+  rw [C15_walk.2.1]; decide +kernel
 
 end GIVerif.GirConsume
